@@ -114,6 +114,12 @@ func (c10) Gen(r *sim.Rand, tier string, run uint64) *sim.Scenario {
 			streams = append(streams, stream{w: isW, remain: 0x10000 - page, low: page < 0x8000})
 			continue
 		}
+		if r.Chance(1, 30) {
+			// the caller re-assigns ROM.Contents (same bytes in a new array, e.g. after growing
+			// the image): writers opened earlier must still store into the live image
+			ops = append(ops, sim.Op{K: "realloc"})
+			continue
+		}
 		id := r.Intn(len(streams))
 		s := &streams[id]
 		rem := s.remain
@@ -413,10 +419,15 @@ func (c c10) Exec(sc *sim.Scenario, env *sim.Env) (viol *sim.Violation) {
 		w.img[i] = byte(i)
 	}
 	w.model = append([]byte{}, w.img...)
-	rom, err := snes.NewROM("sim", w.img)
-	if err != nil || rom == nil {
-		rom = &snes.ROM{Name: "sim", Contents: w.img}
+	name := "sim"
+	if sc.Seed&4 != 0 {
+		name = "" // a legal argument too
 	}
+	rom, err := snes.NewROM(name, w.img)
+	if err != nil || rom == nil {
+		rom = &snes.ROM{Name: name, Contents: w.img}
+	}
+	env.ObsStr(rom.Name)
 	w.rom = rom
 	streams := map[int64]*c10stream{}
 	nb := size >> 15
@@ -426,6 +437,17 @@ func (c c10) Exec(sc *sim.Scenario, env *sim.Env) (viol *sim.Violation) {
 	for i, op := range sc.Ops {
 		w.step = i
 		switch op.K {
+		case "realloc":
+			fresh := append([]byte{}, rom.Contents...)
+			rom.Contents = fresh
+			w.img = fresh
+			for _, id := range sortedKeys(streams) {
+				if s := streams[id]; !s.isW {
+					s.skip = true // what a reader opened before the re-assignment sees is not defined
+				}
+			}
+			st.Probe("contents_reassigned")
+			continue
 		case "open_r", "open_w":
 			id, addr := op.Arg(0), uint32(op.Arg(1))&0xFFFFFF
 			bank, page := int(addr>>16), int(addr&0xFFFF)
